@@ -1,52 +1,70 @@
 (* C18 - module paths resolve as documented, consistently across features.
-   Only statements closed by `exact` + Print Assumptions live here. *)
+   Only statements closed by `exact` + Print Assumptions live here (tiny vm_compute proofs for witnesses).
+   The model carries one boolean per repair (Model/FileIndex.v: sfx; Model/ModulePath.v: the last five fields of rcfg);
+   `repaired cfg` = all of them on = the code in /repo (fix: commits of fixes/C09-deterministic-order.diff,
+   fixes/C18-dotted-path.diff (1473636), fixes/C18-dofile-no-suffix.diff (526bcd1), fixes/C18-dot-slash-definition.diff (49c8cf0),
+   fixes/C18-create-not-reanalysed.diff (f48e6f9); RemoveOneFile repaired by ec76861). The theorems about the variants before a
+   repair are kept, named *_before_fix / *_prefix_refuted. *)
 From Coq Require Import List NArith Bool.
 From LH Require Import Base.Bytes Model.FileIndex Model.ModulePath Spec.ModuleSpec Proofs.FileIndexProofs
   Proofs.ModulePathDet.
 Import ListNotations.
 Local Open Scope N_scope.
 
+Definition repaired (cfg : rcfg) : bool :=
+  order_fixed cfg && stem_fixed cfg && lit_fixed cfg && dotslash_fixed cfg && reanalyse_fixed cfg.
+
 (* ---- the file index as a state machine over create/delete events ---- *)
 
-(* full statement: after every history the index answers like the index of the files now present *)
+(* full statement: after every history the index answers like the index of the files now present
+   (idx_run_fixed = the deployed InsertOneFile / RemoveOneFile, index_is true = names cut at the Lua suffix) *)
 Definition C18_index_refines_full : Prop :=
-  forall ops, index_is (idx_run ops) (files_after ops).
+  forall ops, index_is true (idx_run_fixed ops) (files_after ops).
 
-(* holds for the repaired RemoveOneFile (work/fixes/C18-remove-key.diff), for every history and every path *)
-Theorem C18_index_refines_fixed : forall ops, index_is (idx_run_fixed ops) (files_after ops).
+Theorem C18_index_refines_full_proved : C18_index_refines_full.
+Proof. exact (fixed_refines true). Qed.
+Print Assumptions C18_index_refines_full_proved.
+
+(* the same for either way of cutting names (sfx = false: at the first '.', the code before fixes/C18-dotted-path.diff) *)
+Theorem C18_index_refines_fixed : forall sfx ops, index_is sfx (idx_run_fixed_g sfx ops) (files_after ops).
 Proof. exact fixed_refines. Qed.
 Print Assumptions C18_index_refines_fixed.
 
-(* the code as written: RemoveOneFile changes nothing (absolute paths), the index is that of every file EVER created *)
-Theorem C18_index_unfixed_exact : forall ops, abs_ops ops = true -> index_is (idx_run ops) (ever_inserted ops).
+(* RemoveOneFile as first written (before ec76861): it changed nothing (absolute paths), the index was that of every
+   file EVER created *)
+Theorem C18_index_unfixed_exact : forall sfx ops, abs_ops ops = true ->
+  index_is sfx (idx_run_g sfx ops) (ever_inserted ops).
 Proof. exact unfixed_exact. Qed.
 Print Assumptions C18_index_unfixed_exact.
 
-(* hence it refines the file set exactly as long as no created file is missing now *)
-Theorem C18_index_refines : forall ops, abs_ops ops = true -> stale_remove ops = false ->
-  index_is (idx_run ops) (files_after ops).
+(* hence it refined the file set exactly as long as no created file was missing *)
+Theorem C18_index_refines : forall sfx ops, abs_ops ops = true -> stale_remove ops = false ->
+  index_is sfx (idx_run_g sfx ops) (files_after ops).
 Proof. exact unfixed_refines_guarded. Qed.
 Print Assumptions C18_index_refines.
 
-Theorem C18_index_refines_insert_only : forall ops, no_removes ops = true -> index_is (idx_run ops) (files_after ops).
+Theorem C18_index_refines_insert_only : forall sfx ops, no_removes ops = true ->
+  index_is sfx (idx_run_g sfx ops) (files_after ops).
 Proof. exact unfixed_refines_insert_only. Qed.
 Print Assumptions C18_index_refines_insert_only.
 
-(* "/d/m.lua" created then deleted: still indexed under "m.lua" and under "m" *)
+(* "/d/m.lua" created then deleted: was still indexed under "m.lua" and under "m"; the deployed code forgets it *)
 Definition p_d_m_lua : list N := [47; 100; 47; 109; 46; 108; 117; 97].
-Theorem C18_remove_refuted :
+Theorem C18_remove_prefix_refuted :
   let ops := [Ins p_d_m_lua; Rem p_d_m_lua] in
   abs_ops ops = true /\ stale_remove ops = true /\
-  aget p_d_m_lua (get_name_map (idx_run ops) [109; 46; 108; 117; 97]) = Some [47; 100; 47; 109] /\
-  aget p_d_m_lua (get_pre_map (idx_run ops) [109]) = Some [47; 100; 47; 109] /\
-  spec_name (files_after ops) [109; 46; 108; 117; 97] p_d_m_lua = None /\
-  ~ C18_index_refines_full.
+  aget p_d_m_lua (get_name_map (idx_run_g false ops) [109; 46; 108; 117; 97]) = Some [47; 100; 47; 109] /\
+  aget p_d_m_lua (get_pre_map (idx_run_g false ops) [109]) = Some [47; 100; 47; 109] /\
+  spec_name false (files_after ops) [109; 46; 108; 117; 97] p_d_m_lua = None /\
+  ~ (forall ops, index_is false (idx_run_g false ops) (files_after ops)) /\
+  aget p_d_m_lua (get_name_map (idx_run_fixed ops) [109; 46; 108; 117; 97]) = None /\
+  aget p_d_m_lua (get_pre_map (idx_run_fixed ops) [109]) = None.
 Proof.
   cbv zeta. repeat split; try (vm_compute; reflexivity).
   intros H. specialize (H [Ins p_d_m_lua; Rem p_d_m_lua] [109; 46; 108; 117; 97] p_d_m_lua).
   destruct H as [H _]. vm_compute in H. discriminate.
 Qed.
-Print Assumptions C18_remove_refuted.
+Print Assumptions C18_remove_prefix_refuted.
 
 (* non-vacuity of the guard: a history with a deletion that is undone by a re-creation *)
 Example C18_index_guard_inhabited :
@@ -55,139 +73,275 @@ Example C18_index_guard_inhabited :
 Proof. cbv zeta. repeat split; vm_compute; reflexivity. Qed.
 
 (* ---- resolution: CheckReferFile against the documented mapping ---- *)
-From LH Require Import Proofs.ModulePathStr Proofs.ModulePathProofs.
+From LH Require Import Proofs.ModulePathStr Proofs.ModulePathProofs Proofs.ModulePathEvents Proofs.ModulePathScore.
 
-(* full statement: whatever the workspace, the outcome of CheckReferFile (valid / possible loaded files / type-6
-   diagnostic) conforms to what the documented mapping demands *)
+(* full statement: whatever the workspace of ".lua" files (all_lua: the domain of the documented mapping - name.lua,
+   name/init.lua; it only constrains require-style references), whatever the settings, the disk, the referencing file
+   and the reference, the outcome of CheckReferFile (valid / loaded file / type-6 diagnostic) conforms to what the
+   documented mapping demands *)
 Definition C18_resolve_full : Prop :=
-  forall disk cfg st files cur k refer, index_ok st files ->
+  forall disk cfg st files cur k refer, repaired cfg = true -> index_ok true st files ->
+    (k <> KSuffix -> all_lua files = true) ->
     conforms (check_refer disk cfg st cur k refer) (spec_refer disk cfg files k refer) = true.
 
-(* proved: for require / suffix-less imports when every workspace path has its only '.' in a final ".lua";
-   for dofile / loadfile / suffix-style imports when the referenced text contains a '.' *)
 Theorem C18_resolve_conforms : forall disk cfg st files cur k refer,
-  index_ok st files ->
+  index_ok true st files -> lit_fixed cfg = true ->
+  (k <> KSuffix -> all_lua files = true) ->
+  conforms (check_refer disk cfg st cur k refer) (spec_refer disk cfg files k refer) = true.
+Proof. exact resolve_conforms_fixed. Qed.
+Print Assumptions C18_resolve_conforms.
+
+Lemma repaired_flags cfg : repaired cfg = true ->
+  order_fixed cfg = true /\ stem_fixed cfg = true /\ lit_fixed cfg = true /\ dotslash_fixed cfg = true /\
+  reanalyse_fixed cfg = true.
+Proof.
+  unfold repaired. intros H. repeat (apply andb_true_iff in H as [H ?]). repeat split; assumption.
+Qed.
+
+Theorem C18_resolve_full_proved : C18_resolve_full.
+Proof.
+  intros disk cfg st files cur k refer Hr Hok Hl. destruct (repaired_flags cfg Hr) as [_ [_ [Hlit _]]].
+  exact (resolve_conforms_fixed disk cfg st files cur k refer Hok Hlit Hl).
+Qed.
+Print Assumptions C18_resolve_full_proved.
+
+(* the code before fixes/C18-dotted-path.diff and fixes/C18-dofile-no-suffix.diff conformed only when every workspace
+   path had its only '.' in a final ".lua", and for dofile / loadfile / suffix-style imports only when the text
+   contained a '.' *)
+Theorem C18_resolve_conforms_before_fix : forall disk cfg st files cur k refer,
+  index_ok false st files ->
   (k <> KSuffix -> all_simple files) ->
   (k = KSuffix -> has_dot (remove_pre_str refer) = true) ->
   conforms (check_refer disk cfg st cur k refer) (spec_refer disk cfg files k refer) = true.
 Proof. exact resolve_conforms. Qed.
-Print Assumptions C18_resolve_conforms.
+Print Assumptions C18_resolve_conforms_before_fix.
 
 Theorem C18_type6_iff : forall disk cfg st files cur m,
-  index_ok st files -> all_simple files ->
+  index_ok true st files -> all_lua files = true ->
   exact_mode cfg = false ->
   mem_bytes (remove_pre_str m) (ignore_refer cfg) = false ->
   mem_bytes (remove_pre_str m) (ignore_modules cfg) = false ->
   (r_err6 (check_refer disk cfg st cur KRequire m) = true <->
    disk (complete_path (main_dir cfg) (doc_so (remove_pre_str m))) = false /\
    ~ exists g, In g files /\ matches_doc (remove_pre_str m) g = true).
-Proof. exact type6_iff. Qed.
+Proof. exact type6_iff_fixed. Qed.
 Print Assumptions C18_type6_iff.
 
-(* definition (file) and hover (candidate text) on the module string vs. the file the analysis loaded;
-   unique_best is taken as "at most one workspace file matches each documented candidate" *)
+(* definition (file) and hover (candidate text) on the module string vs. the file the analysis loaded.
+   Full statement: for every require the analysis tries to resolve (fuzzy mode, not on an ignore list, no native
+   module at the root), definition and hover answer exactly the file the analysis loaded, or nothing when it loaded
+   nothing. Proved twice: C18_features_agree when at most one workspace file matches each documented candidate
+   (unique_match, the `unique_best` of the plan), and C18_features_agree_ties for ANY number of equally named modules
+   (the repaired deterministic choice picks the same file in both features because the score of a candidate does not
+   depend on whether it is computed from "name" - analysis - or "name.lua" - definition) for every module name except
+   the six that occur inside the text "lua" (a, l, u, lu, ua, lua: strings.LastIndex then finds the name inside the
+   suffix). What is missing for the full statement: those six names with several matching files. *)
 Definition C18_features_agree_full : Prop :=
-  forall disk cfg st files cur m, index_ok st files ->
+  forall disk cfg st files cur m, repaired cfg = true -> index_ok true st files -> all_lua files = true ->
+    exact_mode cfg = false ->
+    let m' := remove_pre_str m in
+    m' <> [] -> mem_bytes m' (ignore_refer cfg) = false -> mem_bytes m' (ignore_modules cfg) = false ->
+    disk (complete_path (main_dir cfg) (doc_so m')) = false ->
     let out := check_refer disk cfg st cur KRequire m in
-    let oo := open_outcomes cfg st (fun f => fmem f files) cur (open_list true false m) in
-    (forall f, In f (r_resolved out) <-> exists it, In (Some (it, f)) oo) /\
-    (r_resolved out = [] <-> In None oo).
+    let oo := open_outcomes cfg st (fun f => fmem f files) cur (open_list cfg true false m) in
+    (r_resolved out = [] /\ oo = [None]) \/
+    (exists it c, r_resolved out = [c] /\ oo = [Some (it, c)] /\ path_suffix it c = true /\
+                  (it = doc_lua m' \/ it = doc_init m')).
 
 Theorem C18_features_agree : forall disk cfg st files cur m,
-  index_ok st files -> all_simple files ->
+  index_ok true st files -> all_lua files = true ->
+  exact_mode cfg = false -> dotslash_fixed cfg = true ->
+  let m' := remove_pre_str m in
+  m' <> [] ->
+  mem_bytes m' (ignore_refer cfg) = false -> mem_bytes m' (ignore_modules cfg) = false ->
+  disk (complete_path (main_dir cfg) (doc_so m')) = false ->
+  unique_match (doc_lua m') files -> unique_match (doc_init m') files ->
+  let out := check_refer disk cfg st cur KRequire m in
+  let oo := open_outcomes cfg st (fun f => fmem f files) cur (open_list cfg true false m) in
+  (r_resolved out = [] /\ oo = [None]) \/
+  (exists it c, r_resolved out = [c] /\ oo = [Some (it, c)] /\ path_suffix it c = true /\
+                (it = doc_lua m' \/ it = doc_init m')).
+Proof. exact features_agree_fixed. Qed.
+Print Assumptions C18_features_agree.
+
+Theorem C18_features_agree_ties : forall disk cfg st files cur m,
+  index_ok true st files -> all_lua files = true ->
+  exact_mode cfg = false -> dotslash_fixed cfg = true -> order_fixed cfg = true ->
+  let m' := remove_pre_str m in
+  m' <> [] ->
+  mem_bytes m' (ignore_refer cfg) = false -> mem_bytes m' (ignore_modules cfg) = false ->
+  disk (complete_path (main_dir cfg) (doc_so m')) = false ->
+  lua_overlap (mod_path m') = false ->
+  let out := check_refer disk cfg st cur KRequire m in
+  let oo := open_outcomes cfg st (fun f => fmem f files) cur (open_list cfg true false m) in
+  (r_resolved out = [] /\ oo = [None]) \/
+  (exists it c, r_resolved out = [c] /\ oo = [Some (it, c)] /\ path_suffix it c = true /\ In c files /\
+                (it = doc_lua m' \/ it = doc_init m')).
+Proof. exact features_agree_scored. Qed.
+Print Assumptions C18_features_agree_ties.
+
+(* the code before fixes/C18-dotted-path.diff and fixes/C18-dot-slash-definition.diff: simple names only, no "./" *)
+Theorem C18_features_agree_before_fix : forall disk cfg st files cur m,
+  index_ok false st files -> all_simple files ->
   exact_mode cfg = false ->
   remove_pre_str m = m -> m <> [] ->
   mem_bytes m (ignore_refer cfg) = false -> mem_bytes m (ignore_modules cfg) = false ->
   disk (complete_path (main_dir cfg) (doc_so m)) = false ->
   unique_match (doc_lua m) files -> unique_match (doc_init m) files ->
   let out := check_refer disk cfg st cur KRequire m in
-  let oo := open_outcomes cfg st (fun f => fmem f files) cur (open_list true false m) in
+  let oo := open_outcomes cfg st (fun f => fmem f files) cur (open_list cfg true false m) in
   (r_resolved out = [] /\ oo = [None]) \/
   (exists it c, r_resolved out = [c] /\ oo = [Some (it, c)] /\ path_suffix it c = true /\
                 (it = doc_lua m \/ it = doc_init m)).
 Proof. exact features_agree. Qed.
-Print Assumptions C18_features_agree.
+Print Assumptions C18_features_agree_before_fix.
 
 (* ---- the answers follow create/delete events ---- *)
-Theorem C18_reacts_to_events_fixed : forall disk cfg ops cur k refer,
+
+(* at the level of the index: after any history the deployed index makes CheckReferFile conform to the documented
+   mapping over the files now present *)
+Theorem C18_reacts_to_events : forall disk cfg ops cur k refer, lit_fixed cfg = true ->
+  (k <> KSuffix -> all_lua (files_after ops) = true) ->
+  conforms (check_refer disk cfg (idx_run_fixed ops) cur k refer) (spec_refer disk cfg (files_after ops) k refer) = true.
+Proof. exact reacts_deployed. Qed.
+Print Assumptions C18_reacts_to_events.
+
+(* at the level of the project (Model/ModulePath.v pinit / pstep: HandleFileEventChanges + ReanalyseReferInfo on one
+   referencing file): full statement - after ANY history of create / delete events, what an observer sees of every
+   reference (valid, loaded file, type-6 diagnostic: ref_view) and what definition / hover answer on any candidate
+   list is what a fresh start on the files and the disk of that moment shows. No guard. *)
+Definition C18_events_full : Prop :=
+  forall cfg cur refs disk lua events, repaired cfg = true ->
+    let s := fold_left (pstep cfg cur true) events (pinit cfg cur disk lua refs) in
+    let fresh := pinit cfg cur (ps_disk s) (ps_loaded s) refs in
+    map ref_view (ps_refs s) = map ref_view (ps_refs fresh) /\
+    (forall items, open_outcomes cfg (ps_idx s) (fun f => mem_bytes f (ps_loaded s)) cur items =
+                   open_outcomes cfg (ps_idx fresh) (fun f => mem_bytes f (ps_loaded fresh)) cur items).
+
+Theorem C18_events_fresh : forall cfg cur, order_fixed cfg = true -> reanalyse_fixed cfg = true ->
+  forall refs disk lua events,
+    let s := fold_left (pstep cfg cur true) events (pinit cfg cur disk lua refs) in
+    map ref_view (ps_refs s) = map ref_view (ps_refs (fresh_of cfg cur refs s)) /\
+    (forall items, open_outcomes cfg (ps_idx s) (fun f => mem_bytes f (ps_loaded s)) cur items =
+                   open_outcomes cfg (ps_idx (fresh_of cfg cur refs s))
+                     (fun f => mem_bytes f (ps_loaded (fresh_of cfg cur refs s))) cur items).
+Proof. exact events_fresh. Qed.
+Print Assumptions C18_events_fresh.
+
+Theorem C18_events_full_proved : C18_events_full.
+Proof.
+  intros cfg cur refs disk lua events Hr. destruct (repaired_flags cfg Hr) as [Ho [_ [_ [_ Hre]]]].
+  exact (events_fresh cfg cur Ho Hre refs disk lua events).
+Qed.
+Print Assumptions C18_events_full_proved.
+
+(* and therefore every reference of the referencing file follows the documented mapping over the files and the disk of
+   that moment, after any history *)
+Theorem C18_events_conform : forall cfg cur refs disk lua events,
+  order_fixed cfg = true -> reanalyse_fixed cfg = true -> stem_fixed cfg = true -> lit_fixed cfg = true ->
+  let s := fold_left (pstep cfg cur true) events (pinit cfg cur disk lua refs) in
+  forall r, In r (ps_refs s) ->
+    (rs_kind r <> KSuffix -> all_lua (ps_loaded s) = true) ->
+    conforms (ref_outcome r) (spec_refer (disk_of (ps_disk s)) cfg (ps_loaded s) (rs_kind r) (rs_str r)) = true.
+Proof. exact events_conform. Qed.
+Print Assumptions C18_events_conform.
+
+(* the variants before the repairs of this round (RemoveOneFile repaired / as first written) *)
+Theorem C18_reacts_to_events_before_fix : forall disk cfg ops cur k refer,
   (k <> KSuffix -> all_simple (files_after ops)) ->
   (k = KSuffix -> has_dot (remove_pre_str refer) = true) ->
-  conforms (check_refer disk cfg (idx_run_fixed ops) cur k refer) (spec_refer disk cfg (files_after ops) k refer) = true.
+  conforms (check_refer disk cfg (idx_run_fixed_g false ops) cur k refer) (spec_refer disk cfg (files_after ops) k refer) = true.
 Proof. exact reacts_fixed. Qed.
-Print Assumptions C18_reacts_to_events_fixed.
+Print Assumptions C18_reacts_to_events_before_fix.
 
-Theorem C18_reacts_to_events : forall disk cfg ops cur k refer,
+Theorem C18_reacts_to_events_unfixed : forall disk cfg ops cur k refer,
   abs_ops ops = true -> stale_remove ops = false ->
   (k <> KSuffix -> all_simple (files_after ops)) ->
   (k = KSuffix -> has_dot (remove_pre_str refer) = true) ->
-  conforms (check_refer disk cfg (idx_run ops) cur k refer) (spec_refer disk cfg (files_after ops) k refer) = true.
+  conforms (check_refer disk cfg (idx_run_g false ops) cur k refer) (spec_refer disk cfg (files_after ops) k refer) = true.
 Proof. exact reacts_unfixed. Qed.
-Print Assumptions C18_reacts_to_events.
+Print Assumptions C18_reacts_to_events_unfixed.
 
-(* ---- witnesses ---- *)
-Definition ws_cfg : rcfg := mk_rcfg false [] system_modules [47; 119; 115] true.   (* root "/ws", repaired best match *)
+(* ---- witnesses: every former refutation as a before / after pair ---- *)
+(* root "/ws"; ws_cfg = the deployed code; ws_cfg_r1 = before the four repairs of this round (deterministic choice
+   already repaired); ws_cfg_prefix = before that one too *)
+Definition ws_cfg : rcfg := mk_rcfg false [] system_modules [47; 119; 115] true true true true true.
+Definition ws_cfg_r1 : rcfg := mk_rcfg false [] system_modules [47; 119; 115] true false false false false.
+Definition ws_cfg_prefix : rcfg := mk_rcfg false [] system_modules [47; 119; 115] false false false false false.
 Definition f_ws_d_m : list N := [47;119;115;47;100;47;109;46;108;117;97].                    (* /ws/d/m.lua *)
 Definition f_ws_cur : list N := [47;119;115;47;99;46;108;117;97].                            (* /ws/c.lua *)
 Definition f_ws_m_test : list N := [47;119;115;47;109;46;116;101;115;116;46;108;117;97].     (* /ws/m.test.lua *)
 Definition f_ws_v12_m : list N := [47;119;115;47;118;46;50;47;109;46;108;117;97].            (* /ws/v.2/m.lua *)
 
-(* deleted file keeps resolving: no type 6 although the documented mapping finds nothing *)
-Theorem C18_reacts_refuted :
-  let ops := [Ins f_ws_cur; Ins f_ws_d_m; Rem f_ws_d_m] in
-  let out := check_refer (fun _ => false) ws_cfg (idx_run ops) f_ws_cur KRequire [100; 46; 109] in   (* require "d.m" *)
-  r_err6 out = false /\ r_resolved out = [f_ws_d_m] /\
-  spec_refer (fun _ => false) ws_cfg (files_after ops) KRequire [100; 46; 109] = not_found /\
-  r_err6 (check_refer (fun _ => false) ws_cfg (idx_run_fixed ops) f_ws_cur KRequire [100; 46; 109]) = true.
-Proof. cbv zeta. repeat split; vm_compute; reflexivity. Qed.
-Print Assumptions C18_reacts_refuted.
+Example C18_deployed_is_repaired : repaired ws_cfg = true /\ stem_deployed = stem_fixed ws_cfg.
+Proof. split; reflexivity. Qed.
 
-(* a name with a second '.': require "m" loads m.test.lua; a directory with a '.': m.lua is not found *)
-Theorem C18_odd_name_refuted :
+(* C18-remove-key (ec76861): a deleted file kept resolving *)
+Theorem C18_reacts_prefix_refuted :
+  let ops := [Ins f_ws_cur; Ins f_ws_d_m; Rem f_ws_d_m] in
+  let out := check_refer (fun _ => false) ws_cfg_r1 (idx_run_g false ops) f_ws_cur KRequire [100; 46; 109] in   (* require "d.m" *)
+  r_err6 out = false /\ r_resolved out = [f_ws_d_m] /\
+  spec_refer (fun _ => false) ws_cfg_r1 (files_after ops) KRequire [100; 46; 109] = not_found /\
+  check_refer (fun _ => false) ws_cfg (idx_run_fixed ops) f_ws_cur KRequire [100; 46; 109] = not_found.
+Proof. cbv zeta. repeat split; vm_compute; reflexivity. Qed.
+Print Assumptions C18_reacts_prefix_refuted.
+
+(* C18-dotted-path: a name with a second '.' (require "m" loaded m.test.lua) and a directory with a '.' (m.lua not found) *)
+Example C18_dotted_path_repaired :
   (let files := [f_ws_cur; f_ws_m_test] in
-   odd_name files = true /\
-   r_resolved (check_refer (fun _ => false) ws_cfg (idx_run (map Ins files)) f_ws_cur KRequire [109]) = [f_ws_m_test] /\
+   all_lua files = true /\
+   check_refer (fun _ => false) ws_cfg (idx_run (map Ins files)) f_ws_cur KRequire [109] = not_found /\
    spec_refer (fun _ => false) ws_cfg files KRequire [109] = not_found) /\
   (let files := [f_ws_cur; f_ws_v12_m] in
-   odd_name files = true /\
-   check_refer (fun _ => false) ws_cfg (idx_run (map Ins files)) f_ws_cur KRequire [109] = not_found /\
-   spec_refer (fun _ => false) ws_cfg files KRequire [109] = found [f_ws_v12_m]) /\
-  ~ C18_resolve_full.
-Proof.
-  split; [cbv zeta; repeat split; vm_compute; reflexivity|].
-  split; [cbv zeta; repeat split; vm_compute; reflexivity|].
-  intros H.
-  specialize (H (fun _ => false) ws_cfg (idx_run (map Ins [f_ws_cur; f_ws_m_test]))
-                (files_after (map Ins [f_ws_cur; f_ws_m_test])) f_ws_cur KRequire [109]).
-  assert (index_ok (idx_run (map Ins [f_ws_cur; f_ws_m_test])) (files_after (map Ins [f_ws_cur; f_ws_m_test]))) as Hok
-    by (split; [apply wf_run|apply unfixed_refines_insert_only; reflexivity]).
-  specialize (H Hok). vm_compute in H. discriminate.
-Qed.
-Print Assumptions C18_odd_name_refuted.
+   all_lua files = true /\
+   check_refer (fun _ => false) ws_cfg (idx_run (map Ins files)) f_ws_cur KRequire [109] = found [f_ws_v12_m] /\
+   spec_refer (fun _ => false) ws_cfg files KRequire [109] = found [f_ws_v12_m]).
+Proof. split; cbv zeta; repeat split; vm_compute; reflexivity. Qed.
 
-(* dofile "d/m" (no suffix) silently loads d/m.lua *)
-Theorem C18_literal_no_dot_refuted :
+Example C18_dotted_path_before_fix :
+  (let files := [f_ws_cur; f_ws_m_test] in
+   odd_name files = true /\
+   r_resolved (check_refer (fun _ => false) ws_cfg_r1 (idx_run_g false (map Ins files)) f_ws_cur KRequire [109]) = [f_ws_m_test] /\
+   spec_refer (fun _ => false) ws_cfg_r1 files KRequire [109] = not_found) /\
+  (let files := [f_ws_cur; f_ws_v12_m] in
+   odd_name files = true /\
+   check_refer (fun _ => false) ws_cfg_r1 (idx_run_g false (map Ins files)) f_ws_cur KRequire [109] = not_found /\
+   spec_refer (fun _ => false) ws_cfg_r1 files KRequire [109] = found [f_ws_v12_m]).
+Proof. split; cbv zeta; repeat split; vm_compute; reflexivity. Qed.
+
+(* C18-dofile-no-suffix: dofile "d/m" (no suffix) silently loaded d/m.lua *)
+Example C18_dofile_no_suffix_repaired :
+  let files := [f_ws_cur; f_ws_d_m] in
+  check_refer (fun _ => false) ws_cfg (idx_run (map Ins files)) f_ws_cur KSuffix [100; 47; 109] = not_found /\
+  spec_refer (fun _ => false) ws_cfg files KSuffix [100; 47; 109] = not_found /\
+  (* the literal name still resolves *)
+  check_refer (fun _ => false) ws_cfg (idx_run (map Ins files)) f_ws_cur KSuffix [100; 47; 109; 46; 108; 117; 97] = found [f_ws_d_m].
+Proof. cbv zeta. repeat split; vm_compute; reflexivity. Qed.
+
+Example C18_dofile_no_suffix_before_fix :
   let files := [f_ws_cur; f_ws_d_m] in
   literal_no_dot KSuffix [100; 47; 109] = true /\
-  check_refer (fun _ => false) ws_cfg (idx_run (map Ins files)) f_ws_cur KSuffix [100; 47; 109] = found [f_ws_d_m] /\
-  spec_refer (fun _ => false) ws_cfg files KSuffix [100; 47; 109] = not_found.
+  check_refer (fun _ => false) ws_cfg_r1 (idx_run_g false (map Ins files)) f_ws_cur KSuffix [100; 47; 109] = found [f_ws_d_m] /\
+  spec_refer (fun _ => false) ws_cfg_r1 files KSuffix [100; 47; 109] = not_found.
 Proof. cbv zeta. repeat split; vm_compute; reflexivity. Qed.
-Print Assumptions C18_literal_no_dot_refuted.
 
-(* non-vacuity of the guards of C18_resolve_conforms / C18_type6_iff / C18_features_agree:
-   a workspace with duplicate base names, an init.lua module and a nested directory *)
+(* non-vacuity of the premises of C18_resolve_conforms / C18_type6_iff / C18_features_agree:
+   a workspace with duplicate base names, an init.lua module, a nested directory, a name with a second '.' and a
+   directory with a '.' *)
 Definition f_ws_a_init : list N := [47;119;115;47;97;47;105;110;105;116;46;108;117;97].     (* /ws/a/init.lua *)
 Definition f_ws_b_m : list N := [47;119;115;47;98;47;109;46;108;117;97].                     (* /ws/b/m.lua *)
 Example C18_guards_inhabited :
-  let files := [f_ws_cur; f_ws_d_m; f_ws_b_m; f_ws_a_init] in
-  odd_name files = false /\ all_simple files /\
-  index_ok (idx_run (map Ins files)) (files_after (map Ins files)) /\
+  let files := [f_ws_cur; f_ws_d_m; f_ws_b_m; f_ws_a_init; f_ws_m_test; f_ws_v12_m] in
+  all_lua files = true /\ odd_name files = true /\
+  index_ok true (idx_run (map Ins files)) (files_after (map Ins files)) /\
   unique_match (doc_lua [100; 46; 109]) files /\                                                    (* "d.m" *)
   r_resolved (check_refer (fun _ => false) ws_cfg (idx_run (map Ins files)) f_ws_cur KRequire [100; 46; 109]) = [f_ws_d_m] /\
   r_resolved (check_refer (fun _ => false) ws_cfg (idx_run (map Ins files)) f_ws_cur KRequire [97]) = [f_ws_a_init] /\
+  r_resolved (check_refer (fun _ => false) ws_cfg (idx_run (map Ins files)) f_ws_cur KRequire [118; 46; 50; 47; 109]) = [] /\
   r_err6 (check_refer (fun _ => false) ws_cfg (idx_run (map Ins files)) f_ws_cur KRequire [120]) = true.
 Proof.
-  cbv zeta. split; [vm_compute; reflexivity|]. split; [apply odd_name_false; vm_compute; reflexivity|].
-  split; [split; [apply wf_run|apply unfixed_refines_insert_only; reflexivity]|].
+  cbv zeta. split; [vm_compute; reflexivity|]. split; [vm_compute; reflexivity|].
+  split; [split; [apply wf_run|apply (unfixed_refines_insert_only true); reflexivity]|].
   split.
   - intros c1 c2 H1 H2 P1 P2. simpl in H1, H2.
     repeat (destruct H1 as [<-|H1]; [|]); try contradiction; try (vm_compute in P1; discriminate);
@@ -195,34 +349,79 @@ Proof.
   - repeat split; vm_compute; reflexivity.
 Qed.
 
-(* ---- further witnesses found with the event model (Model/ModulePath.v: pinit / pstep) ---- *)
+(* why C18_resolve_full speaks of ".lua" workspaces: a file of an associated type (m.lua.txt, as with the setting
+   files.associations "*.lua.txt") is the module "m" for the code - the name is cut at the first '.' of the file name -
+   while the documented mapping (name.lua, name/init.lua) does not mention it *)
+Definition f_ws_m_lua_txt : list N := [47;119;115;47;109;46;108;117;97;46;116;120;116].     (* /ws/m.lua.txt *)
+Example C18_associated_type_outside_domain :
+  let files := [f_ws_cur; f_ws_m_lua_txt] in
+  all_lua files = false /\
+  check_refer (fun _ => false) ws_cfg (idx_run (map Ins files)) f_ws_cur KRequire [109] = found [f_ws_m_lua_txt] /\
+  spec_refer (fun _ => false) ws_cfg files KRequire [109] = not_found.
+Proof. cbv zeta. repeat split; vm_compute; reflexivity. Qed.
+
+(* ---- C18-create-not-reanalysed / C18-dot-slash-definition, with the event model (pinit / pstep) ---- *)
 Definition f_ws_main : list N := [47;119;115;47;109;97;105;110;46;108;117;97].              (* /ws/main.lua *)
 Definition f_ws_a_b_init : list N := [47;119;115;47;97;47;98;47;105;110;105;116;46;108;117;97].   (* /ws/a/b/init.lua *)
 Definition f_ws_a_b : list N := [47;119;115;47;97;47;98;46;108;117;97].                      (* /ws/a/b.lua *)
 
-(* main.lua: require("a.b") resolved to a/b/init.lua; then a/b.lua is created. The referencing file is not
-   re-analysed (isReferFileContainFiles compares the created path with the raw text "a.b" / "a.b.lua"), so it keeps
-   loading a/b/init.lua while a fresh start - and go-to-definition - answer a/b.lua. *)
-Theorem C18_create_not_reanalysed_refuted :
+(* main.lua: require("a.b") resolved to a/b/init.lua; then a/b.lua is created. Before the repair the referencing file
+   was not re-analysed (isReferFileContainFiles compared the created path with the raw text "a.b" / "a.b.lua"), so it
+   kept loading a/b/init.lua while a fresh start - and go-to-definition - answered a/b.lua. *)
+Example C18_create_not_reanalysed_before_fix :
   let refs := [(KRequire, [97; 46; 98])] in
-  let s0 := pinit ws_cfg f_ws_main [f_ws_a_b_init; f_ws_main] [f_ws_a_b_init; f_ws_main] refs in
-  let s1 := pstep ws_cfg f_ws_main false s0 (Ins f_ws_a_b) in
-  let fresh := pinit ws_cfg f_ws_main [f_ws_a_b_init; f_ws_main; f_ws_a_b] [f_ws_a_b_init; f_ws_main; f_ws_a_b] refs in
+  let s0 := pinit ws_cfg_r1 f_ws_main [f_ws_a_b_init; f_ws_main] [f_ws_a_b_init; f_ws_main] refs in
+  let s1 := pstep ws_cfg_r1 f_ws_main true s0 (Ins f_ws_a_b) in
+  let fresh := pinit ws_cfg_r1 f_ws_main [f_ws_a_b_init; f_ws_main; f_ws_a_b] [f_ws_a_b_init; f_ws_main; f_ws_a_b] refs in
   map rs_vstr (ps_refs s1) = [[f_ws_a_b_init]] /\ map rs_vstr (ps_refs fresh) = [[f_ws_a_b]] /\
-  open_outcomes ws_cfg (ps_idx s1) (fun f => mem_bytes f (ps_loaded s1)) f_ws_main (open_list true false [97; 46; 98])
+  open_outcomes ws_cfg_r1 (ps_idx s1) (fun f => mem_bytes f (ps_loaded s1)) f_ws_main (open_list ws_cfg_r1 true false [97; 46; 98])
     = [Some ([97;47;98;46;108;117;97], f_ws_a_b)].
 Proof. cbv zeta. repeat split; vm_compute; reflexivity. Qed.
-Print Assumptions C18_create_not_reanalysed_refuted.
 
-(* require("./d/m"): the analysis strips "./" and loads d/m.lua; definition/hover build their candidates from the raw
-   text ("//d/m.lua") and find nothing *)
-Theorem C18_dot_slash_refuted :
+Example C18_create_not_reanalysed_repaired :
+  let refs := [(KRequire, [97; 46; 98])] in
+  let s0 := pinit ws_cfg f_ws_main [f_ws_a_b_init; f_ws_main] [f_ws_a_b_init; f_ws_main] refs in
+  let s1 := pstep ws_cfg f_ws_main true s0 (Ins f_ws_a_b) in
+  map rs_vstr (ps_refs s0) = [[f_ws_a_b_init]] /\ map rs_vstr (ps_refs s1) = [[f_ws_a_b]] /\
+  map ref_view (ps_refs s1) = map ref_view (ps_refs (fresh_of ws_cfg f_ws_main refs s1)) /\
+  open_outcomes ws_cfg (ps_idx s1) (fun f => mem_bytes f (ps_loaded s1)) f_ws_main (open_list ws_cfg true false [97; 46; 98])
+    = [Some ([97;47;98;46;108;117;97], f_ws_a_b)].
+Proof. cbv zeta. repeat split; vm_compute; reflexivity. Qed.
+
+(* require("./d/m"): the analysis strips "./" and loads d/m.lua; definition/hover built their candidates from the raw
+   text ("//d/m.lua") and found nothing; now they drop the "./" too *)
+Example C18_dot_slash_before_fix :
+  let st := idx_run_g false (map Ins [f_ws_cur; f_ws_d_m]) in
+  let m := [46; 47; 100; 47; 109] in
+  r_resolved (check_refer (fun _ => false) ws_cfg_r1 st f_ws_cur KRequire m) = [f_ws_d_m] /\
+  open_outcomes ws_cfg_r1 st (fun _ => true) f_ws_cur (open_list ws_cfg_r1 true false m) = [None].
+Proof. cbv zeta. split; vm_compute; reflexivity. Qed.
+
+Example C18_dot_slash_repaired :
   let st := idx_run (map Ins [f_ws_cur; f_ws_d_m]) in
   let m := [46; 47; 100; 47; 109] in
   r_resolved (check_refer (fun _ => false) ws_cfg st f_ws_cur KRequire m) = [f_ws_d_m] /\
-  open_outcomes ws_cfg st (fun _ => true) f_ws_cur (open_list true false m) = [None].
+  open_outcomes ws_cfg st (fun _ => true) f_ws_cur (open_list ws_cfg true false m)
+    = [Some ([100; 47; 109; 46; 108; 117; 97], f_ws_d_m)].
 Proof. cbv zeta. split; vm_compute; reflexivity. Qed.
-Print Assumptions C18_dot_slash_refuted.
+
+(* non-vacuity of C18_features_agree_ties: two equally placed modules "m" (unique_match fails), both features answer
+   the one with the least path *)
+Definition f_ws_a_m : list N := [47;119;115;47;97;47;109;46;108;117;97].
+Definition f_ws_c_x : list N := [47;119;115;47;99;47;120;46;108;117;97].
+Example C18_ties_inhabited :
+  let files := [f_ws_b_m; f_ws_a_m; f_ws_c_x] in
+  let st := idx_run (map Ins files) in
+  all_lua files = true /\ lua_overlap (mod_path [109]) = false /\ ~ unique_match (doc_lua [109]) files /\
+  r_resolved (check_refer (fun _ => false) ws_cfg st f_ws_c_x KRequire [109]) = [f_ws_a_m] /\
+  open_outcomes ws_cfg st (fun f => fmem f files) f_ws_c_x (open_list ws_cfg true false [109])
+    = [Some ([109; 46; 108; 117; 97], f_ws_a_m)].
+Proof.
+  cbv zeta. split; [reflexivity|]. split; [reflexivity|]. split.
+  - intros H. specialize (H f_ws_b_m f_ws_a_m). assert (f_ws_b_m = f_ws_a_m) as E; [|discriminate].
+    apply H; [left; reflexivity|right; left; reflexivity|vm_compute; reflexivity|vm_compute; reflexivity].
+  - split; vm_compute; reflexivity.
+Qed.
 
 (* ---- after fixes/C09-deterministic-order.diff (order_fixed cfg = true): resolution is a function ---- *)
 
@@ -243,20 +442,17 @@ Print Assumptions C18_no_ambiguity_fixed.
 (* before the repair both failed: /ws/a/m.lua and /ws/b/m.lua for require("m") from /ws/c/x.lua are both possible
    answers; and with /ws/a/d/m.lua, /ws/b/d/m.lua for require("d.m"), deleting one of them leaves the model not
    knowing whether the referencing file is re-analysed (it is iff the deleted file happens to be the one chosen) *)
-Definition f_ws_a_m : list N := [47;119;115;47;97;47;109;46;108;117;97].
-Definition f_ws_c_x : list N := [47;119;115;47;99;47;120;46;108;117;97].
 Definition f_ws_a_d_m : list N := [47;119;115;47;97;47;100;47;109;46;108;117;97].
 Definition f_ws_b_d_m : list N := [47;119;115;47;98;47;100;47;109;46;108;117;97].
-Definition ws_cfg_prefix : rcfg := mk_rcfg false [] system_modules [47; 119; 115] false.
 Theorem C18_resolution_tie_prefix_refuted :
-  (let st := idx_run (map Ins [f_ws_a_m; f_ws_b_m; f_ws_c_x]) in
+  (let st := idx_run_g false (map Ins [f_ws_a_m; f_ws_b_m; f_ws_c_x]) in
    r_resolved (check_refer (fun _ => false) ws_cfg_prefix st f_ws_c_x KRequire [109]) = [f_ws_a_m; f_ws_b_m] /\
-   r_resolved (check_refer (fun _ => false) ws_cfg st f_ws_c_x KRequire [109]) = [f_ws_a_m]) /\
+   r_resolved (check_refer (fun _ => false) ws_cfg_r1 st f_ws_c_x KRequire [109]) = [f_ws_a_m]) /\
   (let lua := [f_ws_a_d_m; f_ws_b_d_m; f_ws_c_x] in
    let refs := [(KRequire, [100; 46; 109])] in
    ps_ambig (pstep ws_cfg_prefix f_ws_c_x true (pinit ws_cfg_prefix f_ws_c_x lua lua refs) (Rem f_ws_b_d_m)) = true /\
-   ps_ambig (pstep ws_cfg f_ws_c_x true (pinit ws_cfg f_ws_c_x lua lua refs) (Rem f_ws_b_d_m)) = false /\
-   map rs_vstr (ps_refs (pstep ws_cfg f_ws_c_x true (pinit ws_cfg f_ws_c_x lua lua refs) (Rem f_ws_a_d_m)))
+   ps_ambig (pstep ws_cfg_r1 f_ws_c_x true (pinit ws_cfg_r1 f_ws_c_x lua lua refs) (Rem f_ws_b_d_m)) = false /\
+   map rs_vstr (ps_refs (pstep ws_cfg_r1 f_ws_c_x true (pinit ws_cfg_r1 f_ws_c_x lua lua refs) (Rem f_ws_a_d_m)))
      = [[f_ws_b_d_m]]).
 Proof. cbv zeta. repeat split; vm_compute; reflexivity. Qed.
 Print Assumptions C18_resolution_tie_prefix_refuted.
